@@ -22,6 +22,7 @@ import (
 	"sort"
 	"strings"
 	"sync"
+	"time"
 
 	a "github.com/google/wuffs/lang/ast"
 	"wvh/hlib"
@@ -137,7 +138,11 @@ func main() {
 		r.Finish("toolchain failure")
 		return
 	}
-	defer tc.cleanup()
+	if os.Getenv("C04_KEEP") == "" {
+		defer tc.cleanup()
+	} else {
+		fmt.Fprintln(os.Stderr, "keeping", tc.dir)
+	}
 
 	shapeCheck(r, tc)
 	runExec(r, tc)
@@ -149,10 +154,11 @@ func main() {
 }
 
 func runExec(r *hlib.Run, tc *toolchain) {
-	nPkgs, perPkg, workers := 14, 10, 8
+	nPkgs, perPkg, workers := 5, 14, 5
 	if r.Thorough {
 		nPkgs, perPkg, workers = 400, 12, 14
 	}
+	t0 := time.Now()
 	// phase 1: generate (sequential: deterministic for the seed)
 	jobs := make([]*pkgJob, nPkgs)
 	for i := range jobs {
@@ -185,6 +191,7 @@ func runExec(r *hlib.Run, tc *toolchain) {
 		j.src = b.String()
 		jobs[i] = j
 	}
+	t1 := time.Now()
 	// phase 2: translate, compile, run (parallel)
 	var wg sync.WaitGroup
 	ch := make(chan *pkgJob)
@@ -213,6 +220,8 @@ func runExec(r *hlib.Run, tc *toolchain) {
 	}
 	close(ch)
 	wg.Wait()
+	r.Extra("gen_seconds", t1.Sub(t0).Seconds())
+	r.Extra("compile_run_seconds", time.Since(t1).Seconds())
 
 	// phase 3: ops + oracle (sequential, in order)
 	ncalls := 0
@@ -259,9 +268,24 @@ func runExec(r *hlib.Run, tc *toolchain) {
 				return "abort"
 			}
 			r.Op("case "+j.name+"."+p.sname+" "+j.sexprs[i], line(cl, 0))
+			prev := ""
 			for k, c := range h {
-				r.Op(callLine(c), line(cl, k+1))
+				out := line(cl, k+1)
+				r.Op(callLine(c), out)
 				ncalls++
+				if i := strings.Index(out, "|"); i > 0 {
+					if !strings.HasPrefix(out, "r 0 ") && !strings.HasPrefix(out, "r - ") {
+						r.Count("trace:nonzero-return")
+					}
+					if out[i:] != prev && k > 0 {
+						r.Count("trace:state-changed")
+					}
+					prev = out[i:]
+				}
+				r.Count("trace:calls")
+			}
+			if len(h) > 0 {
+				r.Sample(callLine(h[len(h)-1]) + " -> " + line(cl, len(h)))
 			}
 			replay := "// package " + j.name + " struct " + p.sname + "\n" + p.src + "\n// history\n" + histText(h)
 			if cl.failed || len(cl.lines) != len(h)+1 {
